@@ -404,6 +404,15 @@ class Interp:
                             break
                     self.iters.append(it)
                     rec['result'] = got
+                elif op == 'reopen':
+                    # the client opens a NEW handle on the directory (Cache.__init__ re-applies the settings stored there) and
+                    # goes on with it; to the contents this is a no-op
+                    if self.kind != 'cache':
+                        raise ValueError('reopen: plain Cache only')
+                    new = diskcache.Cache(self.obj.directory, timeout=self.obj.timeout)
+                    self.opened = getattr(self, 'opened', []) + [new]
+                    self.obj = new
+                    rec['result'] = 'opened'
                 elif op == 'iter_rest':
                     rec['result'] = [jsonable(k) for k in self.iters.pop()] if self.iters else []
                 else:
@@ -417,6 +426,11 @@ class Interp:
                     rec['exc_args'] = jsonable(list(e.args))
             self._finish(rec)
             j += 1
+        for o in getattr(self, 'opened', []):
+            try:
+                o.close()           # handles opened by 'reopen' (same thread: closes this thread's connection)
+            except Exception:  # noqa
+                pass
         # a program that leaves blocks open closes them (commit) at its end
         while self.stack:
             cm = self.stack.pop()
@@ -890,7 +904,7 @@ def kill_child(directory, calls, kill_n=None, kind='cache', settings=None, now=1
 
 
 def run_processes(ctx, programs, schedule, settings=None, kill_at=None, setup=None, kind='cache', max_steps=4000,
-                  now=1000.0, shards=2, directory=None):
+                  now=1000.0, shards=2, directory=None, sleep_advances=True):
     """Like run_program(mode='own') but every client is a forked PROCESS.  Each child installs its own Tracer whose
     before-hook reports the event on a pipe and blocks until the parent grants the step.  kill_at={cid: n}: the
     child is SIGKILLed while parked at its n-th event (before it executes).  Result as run_program (no raw_log)."""
@@ -939,7 +953,8 @@ def run_processes(ctx, programs, schedule, settings=None, kill_at=None, setup=No
                 tracer = sched.Tracer(before=before, clock=cclock)
 
                 def on_sleep(dt):
-                    cclock.now += dt
+                    if sleep_advances:
+                        cclock.now += dt
                     tracer.emit('sleep', 'sleep', dt)
                 with instr.Installed(cclock), tracer:
                     # opening a Cache writes its Settings; children opening at once retry through sleep(): that must
